@@ -8,6 +8,7 @@ CONSTANTS
   Coords = {"A", "X"}
   OpKinds = {"CreateStream", "DeleteStream", "Pause", "Resume", "SetReadonly", "ShrinkISR", "ExpandISR", "ChangeLeader", "PublishActivity"}
   Variants = {"custom"}
+  Extras = {}
   MaxOps = 4
   MaxSnaps = 2
   MaxRestarts = 1
